@@ -204,3 +204,139 @@ Theorem C15_before_fix_sudo_watchers_none_historical_refuted :
     run_program cc [SSudo "whoami" None k false]
     = (c0, [Some ("sudo -S -p 'P:' whoami"%string, OStr "/bin/bash", [])], None).
 Proof. exact sudo_watchers_none_before_fix_refuted. Qed.
+
+(** * The command line: [Program.update_config] (Model/ProgramModel.v)
+    Proofs in Proofs/Program_update.v.  Which configuration a task's [run()] resolves
+    against when core flags were given ("else the configured value" of C15, the
+    "core values -> config overrides" of C18, the "-T" of C14). *)
+From InvokeVerif Require Import Model.ProgramModel Spec.C15CliSpec Proofs.Program_update.
+
+(** Flagship of this part: for all core flags, lower configuration, environment
+    variable, parent environment, command and keyword arguments -- the overrides level
+    the model builds, the runtime path it chooses and what the runner then does are
+    accepted by the executable specification (which reads the flags directly). *)
+Theorem C15_cli_meets_spec : forall a lower env_var parent command k,
+  spec_ok_cli a lower env_var parent command k
+              (overrides_of a) (runtime_path_of a env_var)
+              (run_model_cli a lower parent command k) = true.
+Proof. exact cli_meets_spec. Qed.
+
+(** (1) each flag given on the command line reads back as that value in the overrides
+    tree, and nothing else is in it (closed form of its leaves; the four sections are
+    always present, possibly empty). *)
+Theorem C15_cli_flags_are_overrides : forall a,
+  leaf_paths (overrides_of a) = expected_overrides a /\
+  (forall k, In k ["run"; "tasks"; "sudo"; "timeouts"]%string -> has_section (overrides_of a) k = true) /\
+  leaf_at ["run"; "warn"] (overrides_of a) = (if a_warn_only a then Some (VBool true) else None) /\
+  leaf_at ["run"; "pty"] (overrides_of a) = (if a_pty a then Some (VBool true) else None) /\
+  leaf_at ["run"; "echo"] (overrides_of a) = (if a_echo a then Some (VBool true) else None) /\
+  leaf_at ["run"; "dry"] (overrides_of a) = (if a_dry a then Some (VBool true) else None) /\
+  leaf_at ["run"; "hide"] (overrides_of a)
+    = match a_hide a with Some s => if String.eqb s "" then None else Some (VStr s) | None => None end /\
+  leaf_at ["tasks"; "dedupe"] (overrides_of a) = (if a_no_dedupe a then Some (VBool false) else None) /\
+  leaf_at ["sudo"; "password"] (overrides_of a) = option_map VStr (a_sudo_password a) /\
+  leaf_at ["timeouts"; "command"] (overrides_of a)
+    = match a_timeout a with Some n => if Z.eqb n 0 then None else Some (VInt n) | None => None end.
+Proof. exact flags_are_overrides. Qed.
+
+(** (2) every option: per-call value if given, else the flag's value if the flag was
+    given, else what the lower levels configure, else the built-in default ... *)
+Theorem C15_cli_flag_resolution : forall a lower k o,
+  want (cli_config a lower) k o
+  = match given k o with
+    | Some v => v
+    | None => match flag_value a o with
+              | Some v => v
+              | None => match cf lower o with Some v => v | None => default o end
+              end
+    end.
+Proof. exact cli_flag_resolution. Qed.
+
+(** ... and that is the value the runner ends up with (warn, pty, dry; echo and hide
+    additionally go through the interaction rules of [C15_interactions]). *)
+Theorem C15_cli_effective : forall a lower k r o,
+  effective_opts_cli a lower k = Ok r -> In o [Warn; Pty; Dry] ->
+  r_opts r o = match given k o with
+               | Some v => v
+               | None => match flag_value a o with
+                         | Some v => v
+                         | None => match cf lower o with Some v => v | None => default o end
+                         end
+               end.
+Proof. exact cli_effective. Qed.
+
+(** (3) the command timeout: per call (None included) > -T > configured
+    [timeouts.command].  [-T 0] is falsy in [if command:] and is dropped: it does NOT
+    mean "no timeout", a configured timeout still applies
+    ([C15_cli_timeout_zero_is_ignored]).  Judged a quirk, not a violation of C14's
+    "the per-call value if given, otherwise the configured or command-line one": a
+    timeout of 0 seconds is not a meaningful request, and treating it as "not given"
+    keeps some configured-or-command-line value in force. *)
+Theorem C15_cli_timeout : forall a lower k r,
+  effective_opts_cli a lower k = Ok r ->
+  r_timeout r = match kw_timeout k with
+                | Some v => v
+                | None => match a_timeout a with
+                          | Some n => if Z.eqb n 0 then cf_timeout lower else OInt n
+                          | None => cf_timeout lower
+                          end
+                end.
+Proof. exact cli_timeout. Qed.
+
+Theorem C15_cli_timeout_zero_is_ignored : forall a lower k r,
+  a_timeout a = Some 0%Z -> kw_timeout k = None ->
+  effective_opts_cli a lower k = Ok r -> r_timeout r = cf_timeout lower.
+Proof. exact cli_timeout_zero_is_ignored. Qed.
+
+Theorem C15_cli_runtime_path : forall a env_var,
+  (forall p, a_config a = Some p -> runtime_path_of a env_var = Some p) /\
+  (a_config a = None -> runtime_path_of a env_var = env_var).
+Proof. exact runtime_path. Qed.
+
+(** (4) tie to the source text of [Program.update_config] (Generated/Tables.v,
+    regenerated on every run; [None] = shape not recognised, behavioural
+    correspondence only): the (test, assignment) pairs [overrides_of] and
+    [runtime_path_of] were written from, in order. *)
+Theorem C15_update_config_matches_source :
+  match Generated.Tables.update_config_src with
+  | Some t => t =
+      [("<assign>", "run = {}");
+       ("self.args['warn-only'].value", "run['warn'] = True");
+       ("self.args.pty.value", "run['pty'] = True");
+       ("self.args.hide.value", "run['hide'] = self.args.hide.value");
+       ("self.args.echo.value", "run['echo'] = True");
+       ("self.args.dry.value", "run['dry'] = True");
+       ("<assign>", "tasks = {}");
+       ("'no-dedupe' in self.args and self.args['no-dedupe'].value", "tasks['dedupe'] = False");
+       ("<assign>", "timeouts = {}");
+       ("<assign>", "command = self.args['command-timeout'].value");
+       ("command", "timeouts['command'] = command");
+       ("<assign>", "sudo = {}");
+       ("self.args['prompt-for-sudo-password'].value",
+        "prompt = ""Desired 'sudo.password' config value: ""; sudo['password'] = getpass.getpass(prompt)");
+       ("<assign>", "overrides = dict(run=run, tasks=tasks, sudo=sudo, timeouts=timeouts)");
+       ("<call>", "self.config.load_overrides(overrides, merge=False)");
+       ("<assign>", "runtime_path = self.args.config.value");
+       ("runtime_path is None", "runtime_path = os.environ.get('INVOKE_RUNTIME_CONFIG', None)");
+       ("<call>", "self.config.set_runtime_path(runtime_path)");
+       ("<call>", "self.config.load_runtime(merge=False)");
+       ("merge", "self.config.merge()")]
+  | None => True
+  end.
+Proof. vm_compute; first [reflexivity | exact I]. Qed.
+
+Example C15_example_cli :
+  let a := mkArgs true false (Some "out") true false true (Some 0%Z) (Some "typed") None in
+  let lower := mkCfg (fun o => match o with Echo => Some (OBool false) | Shell => Some (OStr "/bin/sh")
+                                       | Hide => Some (OStr "both") | _ => None end) (OInt 9) in
+  let k := mkKw (fun o => match o with Warn => Some (OBool false) | _ => None end) None [] in
+  leaf_paths (overrides_of a)
+  = [(["run"; "warn"], VBool true); (["run"; "hide"], VStr "out"); (["run"; "echo"], VBool true);
+     (["tasks"; "dedupe"], VBool false); (["sudo"; "password"], VStr "typed")]%string /\
+  runtime_path_of a (Some "/e.json"%string) = Some "/e.json"%string /\
+  match effective_opts_cli a lower k with
+  | Ok r => r_opts r Warn = OBool false /\ r_opts r Echo = OBool true /\ r_opts r Shell = OStr "/bin/sh"
+            /\ r_opts r Hide = OList ["stdout"%string] /\ r_timeout r = OInt 9
+  | Err _ => False
+  end.
+Proof. vm_compute. repeat split; reflexivity. Qed.
